@@ -601,6 +601,26 @@ func ruleStopDrains(c *Ctx, r *R) {
 			}
 		})
 	}
+	// … and the helpers that are only ever called from such clean-up functions (timer.release())
+	for changed := true; changed; {
+		changed = false
+		for _, f := range fns {
+			if cleanup[f] || f.Parent() != nil {
+				continue
+			}
+			sites := callSitesOf(c, f)
+			all := len(sites) > 0
+			for _, s := range sites {
+				if !cleanup[s.Parent()] {
+					all = false
+				}
+			}
+			if all && len(callCommonsOf(c, f)) == len(sites) {
+				cleanup[f] = true
+				changed = true
+			}
+		}
+	}
 	n := 0
 	for _, f := range fns {
 		if cleanup[f] {
